@@ -19,12 +19,15 @@ RULES = [
     {"id": "r-foo", "language": "js", "rule": {"pattern": "foo($A)"}, "severity": "error", "message": "foo $A"},
     {"id": "r-bar", "language": "js", "rule": {"pattern": "bar($A)"}, "severity": "warning", "message": "bar $A", "fix": "baz($A)"},
     {"id": "r-div", "language": "html", "rule": {"pattern": "<div>$$$A</div>"}, "severity": "hint", "message": "div"},
+    {"id": "r-css", "language": "css", "rule": {"kind": "plain_value", "regex": "^red$"}, "severity": "info", "message": "red"},
 ]
 
 FILES = {
     "a.js": b"foo(1)\nbar(2)\n",              # findings of both rules -> 2 items
     "b.js": b"foo(3)\nfoo(4)\nbar(5)\n",      # same rules as a.js: collides with it
-    "c.html": b"<div>x</div>\n<script>foo(6); bar(7)</script>\n",  # host + injected documents
+    # host + TWO injected documents of different languages (they come out of a map that every
+    # worker thread builds with its own hash keys: what is scanned must not depend on who took the file)
+    "c.html": b"<div>x</div>\n<style>a { color: red }</style>\n<script>foo(6); bar(7)</script>\n",
     "d.js": b"nothing()\n",                   # eligible, no finding
     "e.js": b"",                              # empty: skipped by read_file
     "f.js": b"foo(8) \xff\xfe\n",             # not UTF-8: skipped
